@@ -195,6 +195,7 @@ def run(tier, seed):
     modes = ["same-scenario"] * b["same_scenario"] + ["same-layout"] * b["same_layout"] + ["different"] * b["different"]
     tasks = [(seed, i, m, tier) for i, m in enumerate(modes)]
     rs = runner.pmap(run_pair, tasks)
+    runner.stamp("multi", "run_pair", tasks, rs)
     errors = [dict(idx=r["idx"], error=r["error"]) for r in rs if r["error"]]
     by_mode = collections.Counter(r["mode"] for r in rs)
     interf = collections.Counter(r["mode"] for r in rs if r["interfered"])
